@@ -1,6 +1,7 @@
 package sim
 
 import (
+	"path"
 	"fmt"
 	"strings"
 
@@ -20,7 +21,9 @@ func init() {
 
 var c12Services = []string{"a.S", "a.S2", "a", "x.y.Z", "a.s"}
 var c12Methods = []string{"M", "M2", "MM", "m", "Get", "GetX"}
-var c12Bases = []string{"/", "/", "/foo", "/foo/", "/a/b/", "/a/b", "/v1~x/", "/pl+us/", "/ünï/", "/foo/foo/", "/a.S/"}
+var c12Bases = []string{"/", "/", "/foo", "/foo/", "/a/b/", "/a/b", "/v1~x/", "/pl+us/", "/ünï/", "/foo/foo/", "/a.S/",
+	// characters that need escaping in a URL path (and mean something in a Go >= 1.22 ServeMux pattern)
+	"/my api/", "/a%41/", "/{v1}/", "/a{b/", "/q?x/", "/h#x/"}
 
 func genC12(g *gen, seed int64) *Program {
 	p := &Program{Profile: "c12", Seed: seed}
@@ -48,7 +51,17 @@ func genC12(g *gen, seed int64) *Program {
 		r.Call = exact
 		r.Expect = "own"
 		if g.p(0.55) {
-			switch g.pick(22) {
+			switch g.pick(27) {
+			case 22:
+				r.Call, r.Expect = "/"+r.Svc+"/./"+r.Meth, "none" // dot segments: names that path cleaning would turn into a registered one
+			case 23:
+				r.Call, r.Expect = "/"+r.Svc+"/Other/../"+r.Meth, "none"
+			case 24:
+				r.Call, r.Expect = "/nosuch.Svc/../"+r.Svc+"/"+r.Meth, "none"
+			case 25:
+				r.Call, r.Expect = "/"+r.Svc+"//"+r.Meth, "none"
+			case 26:
+				r.Call, r.Expect = "/.."+exact, "none"
 			case 18:
 				r.Call, r.Expect = "/extra"+exact, "none" // a segment in front of a registered name
 			case 19:
@@ -72,9 +85,9 @@ func genC12(g *gen, seed int64) *Program {
 			case 6:
 				r.Call, r.Expect = exact+"/extra", "none"
 			case 7:
-				r.Call, r.Expect = exact+"/", "either" // trailing slash: path cleaning may or may not resolve it
+				r.Call, r.Expect = exact+"/", "none" // trailing slash: not the registered name
 			case 8:
-				r.Call, r.Expect = "/"+exact, "either"
+				r.Call, r.Expect = "/"+exact, "none" // empty first segment
 			case 9:
 				r.Call, r.Expect = "/"+strings.ToUpper(r.Svc)+"/"+r.Meth, "none"
 				if strings.ToUpper(r.Svc) == r.Svc {
@@ -258,6 +271,8 @@ func callShape(r *RPC) string {
 		return "empty"
 	case "/"+c == exact:
 		return "no-leading-slash"
+	case path.Clean("/"+strings.TrimPrefix(c, "/")) != "/"+strings.TrimPrefix(c, "/") || strings.HasPrefix(c, "//"):
+		return "unclean-path"
 	case !strings.Contains(strings.TrimPrefix(c, "/"), "/"):
 		return "single-segment"
 	case strings.HasPrefix(c, exact+"/"):
@@ -274,6 +289,8 @@ func callShape(r *RPC) string {
 
 func baseShape(b string) string {
 	switch {
+	case strings.ContainsAny(b, " %{}?#\t"):
+		return "needs-escaping"
 	case b == "" || b == "/":
 		return "root"
 	case strings.HasSuffix(b, "/"):
